@@ -229,6 +229,11 @@ func (g *gen) clean(v sqlgen.Value) sqlgen.Value {
 func (s *txstate) tables(pred func(t *tstate) bool) []*tstate {
 	var out []*tstate
 	for _, n := range s.view.names {
+		if s.foreignDDL && (s.created[n] || s.altered[n]) {
+			// see Assumptions: the ids this transaction gave its new tables / columns
+			// now belong to what the other session committed
+			continue
+		}
 		if t := s.view.tabs[n]; pred == nil || pred(t) {
 			out = append(out, t)
 		}
@@ -996,13 +1001,13 @@ func (g *gen) failing(s *txstate, foreign []string) *stmt {
 				if c.NotNull {
 					add("fail-not-null", func() string {
 						return full(func(cols []*sqlgen.Column, r row) string {
-							if g.chance(2, "omit") {
-								var kept []*sqlgen.Column
-								for _, x := range cols {
-									if x != c {
-										kept = append(kept, x)
-									}
+							var kept []*sqlgen.Column
+							for _, x := range cols {
+								if x != c {
+									kept = append(kept, x)
 								}
+							}
+							if len(kept) > 0 && g.chance(2, "omit") {
 								return fmt.Sprintf("INSERT INTO %s (%s) VALUES %s", d.name, colList(kept), rowsSQL(kept, []row{r}, d))
 							}
 							delete(r, c.Name)
